@@ -17,6 +17,9 @@ import (
 
 // KMSWorld is a set of fake regional AWS KMS endpoints sharing one call log.
 type KMSWorld struct {
+	// FailErr, when set, is what failing regions return instead of ErrKMSDown (e.g. an error that
+	// wraps context.DeadlineExceeded, as the AWS SDKs produce for per-call timeouts).
+	FailErr error
 	mu       sync.Mutex
 	Regions  map[string]*KMSRegion
 	Calls    []KMSCall
@@ -47,6 +50,14 @@ type KMSRegion struct {
 	FailDecrypt  bool
 	WrongDecrypt bool          // Decrypt "succeeds" with bytes that are not the data key
 	Delay        time.Duration // real time every call to this region takes (a slow but healthy region)
+}
+
+// failErr is the error an injected regional failure returns (FailErr, or ErrKMSDown).
+func (w *KMSWorld) failErr() error {
+	if w.FailErr != nil {
+		return w.FailErr
+	}
+	return ErrKMSDown
 }
 
 // ErrKMSDown is the injected regional failure.
@@ -116,7 +127,7 @@ func (k *KMSRegion) generate(keyID string) (pt, ct []byte, err error) {
 	time.Sleep(k.Delay)
 	if k.FailGenerate {
 		k.log("GenerateDataKey", false)
-		return nil, nil, ErrKMSDown
+		return nil, nil, k.w.failErr()
 	}
 	if keyID != k.ARN {
 		k.log("GenerateDataKey", false)
@@ -137,7 +148,7 @@ func (k *KMSRegion) encrypt(keyID string, pt []byte) ([]byte, error) {
 	time.Sleep(k.Delay)
 	if k.FailEncrypt {
 		k.log("Encrypt", false)
-		return nil, ErrKMSDown
+		return nil, k.w.failErr()
 	}
 	if keyID != k.ARN {
 		k.log("Encrypt", false)
@@ -151,7 +162,7 @@ func (k *KMSRegion) decrypt(ct []byte) ([]byte, error) {
 	time.Sleep(k.Delay)
 	if k.FailDecrypt {
 		k.log("Decrypt", false)
-		return nil, ErrKMSDown
+		return nil, k.w.failErr()
 	}
 	pt, err := k.unwrap(ct)
 	if err != nil {
